@@ -19,7 +19,7 @@ import PgProofs.GenEvoGen
 namespace Pg.C15
 
 /-- Generated obligation: the current source has the repaired shape of `Deduping.recover/_replay`
-and `Evolution.recover` (fixes/C15-F22.patch, fixes/C15-F35.patch). -/
+and `Evolution.recover` (fixes/C15-F22.patch, fixes/C15-F86.patch). -/
 theorem C15_quirks_patched : currentQuirks = Quirks.patched := by decide
 
 /-- Crash points are prefixes: the uninterrupted run passes through the state of its prefix of
@@ -220,7 +220,7 @@ def SweepAtLast (l : Live) : Prop :=
   ∃ np nf a b c, l.st = .deduping np nf (.sweeping a b (lastOr none l.hist)) c
 
 /-- Exclusion predicate (Random): the live PRNG position equals the number of persisted proposals —
-i.e. no attempt was ever rejected as a duplicate (finding F34 is exactly the other case). -/
+i.e. no attempt was ever rejected as a duplicate (finding F88 is exactly the other case). -/
 def DrawsAtHistory (l : Live) : Prop :=
   ∃ np nf a b c, l.st = .deduping np nf (.random a b l.hist.length) c
 
@@ -277,7 +277,7 @@ theorem C15_continue_dedup_random_partial (env : Env) (hq : env.q.dedupForwardsR
   simp only [Nat.zero_add]
   exact proposeN_dedup_random_counters env seed true hid md ma au m _ _ _ _ _ _ _ _
 
-/-- F34 (also on the repaired source): the PRNG draws 0 0 1 0 2 …; the second proposal rejects one
+/-- F88 (also on the repaired source): the PRNG draws 0 0 1 0 2 …; the second proposal rejects one
 duplicate, so the live stream is at position 3 and the recovered one at 2; with two attempts per
 proposal the uninterrupted instance proposes 2 next while the recovered one raises StopIteration. -/
 def f34Env : Env :=
@@ -286,7 +286,7 @@ def f34Env : Env :=
 
 def f34Algo : Algo := .deduping (.random 7 true) 0 1 2 false
 
-theorem C15_F34_counterexample :
+theorem C15_F88_counterexample :
     (proposeN f34Env f34Algo 1 (runLive f34Env f34Algo [.propose, .propose]).st).1
         = [.ok { dna := 2, key := some 2 }]
     ∧ (recover f34Env f34Algo (setup f34Algo) (runLive f34Env f34Algo [.propose, .propose]).hist).map
@@ -296,8 +296,8 @@ theorem C15_F34_counterexample :
 theorem C15_continue_dedup_Full_false : ¬ C15_continue_dedup_Full f34Env := by
   intro h
   obtain ⟨s', h1, h2⟩ := h (.random 7 true) (Or.inr ⟨7, rfl⟩) 0 1 2 false [.propose, .propose] 1
-  have e1 := C15_F34_counterexample.1
-  have e2 := C15_F34_counterexample.2
+  have e1 := C15_F88_counterexample.1
+  have e2 := C15_F88_counterexample.2
   unfold f34Algo at e1 e2
   rw [h1] at e2
   simp only [Except.map, Except.ok.injEq] at e2
@@ -321,7 +321,7 @@ persisted history (all metadata assertions hold) and restores `num_proposals`, `
 POPULATION (every individual with its fitness and metadata, in order) exactly, for every run —
 out-of-order feedback, in-flight proposals, several children per generation and failed proposals
 included.  (The generation counter and the init-phase flag are tied by correspondence and oracle at
-every crash point, with counterexamples F36/F37; they are not proved for all runs.) -/
+every crash point, with counterexamples F87/F89; they are not proved for all runs.) -/
 theorem C15_recover_evolution (env : Env) (hq : env.q = Quirks.patched) (init : Algo) (hb : IsBase init)
     (initSize : Option Nat) (run : List Event) :
     ∃ np nf pop si ini g pend si' ini' g' pend',
@@ -361,7 +361,7 @@ theorem C15_recover_evolution_counts (env : Env) (hq : env.q = Quirks.patched) (
     C15_recover_evolution env hq init hb initSize run
   exact ⟨_, h2, by rw [h1]; rfl, by rw [h1]; rfl⟩
 
-/-- F35 (pinned source): with out-of-order feedback and `population_update = Last(2)` the recovered
+/-- F86 (pinned source): with out-of-order feedback and `population_update = Last(2)` the recovered
 population contains a different individual than the uninterrupted one; the repaired source agrees. -/
 def f35Env (q : Quirks) : Env :=
   { space := [0, 1, 2, 3], draw := fun _ _ => 0, hash := fun _ d => d,
@@ -376,18 +376,18 @@ def popSummary : Except Err St → Option (Nat × List (Nat × Option Int))
   | .ok (.evolution _ _ _ _ g pop _) => some (g, pop.map fun it => (it.dna, it.reward))
   | _ => none
 
-theorem C15_F35_counterexample_pinned :
+theorem C15_F86_counterexample_pinned :
     popSummary (.ok (runLive (f35Env .pinned) f35Algo f35Run).st)
       ≠ popSummary (recover (f35Env .pinned) f35Algo (setup f35Algo) (runLive (f35Env .pinned) f35Algo f35Run).hist) := by
   decide
 
-theorem C15_F35_fixed :
+theorem C15_F86_fixed :
     popSummary (.ok (runLive (f35Env .patched) f35Algo f35Run).st)
       = popSummary (recover (f35Env .patched) f35Algo (setup f35Algo) (runLive (f35Env .patched) f35Algo f35Run).hist) := by
   decide
 
-/-- F36 (pinned source): recovered while still initialising, `num_generations` is 1 instead of 0. -/
-theorem C15_F36_counterexample_pinned :
+/-- F87 (pinned source): recovered while still initialising, `num_generations` is 1 instead of 0. -/
+theorem C15_F87_counterexample_pinned :
     popSummary (.ok (runLive (f35Env .pinned) (.evolution .sweeping (some 3)) [.propose]).st) = some (0, [])
     ∧ popSummary (recover (f35Env .pinned) (.evolution .sweeping (some 3)) (setup (.evolution .sweeping (some 3)))
         (runLive (f35Env .pinned) (.evolution .sweeping (some 3)) [.propose]).hist) = some (1, [])
@@ -398,11 +398,11 @@ theorem C15_F36_counterexample_pinned :
 example : IsBase (.random 3 false) := Or.inr ⟨3, false, rfl⟩
 example : (runLive (f35Env .patched) f35Algo f35Run).st.nf = 4 := by decide
 
-/-- Exclusion predicate of the generation-counter theorem (finding F37): the live instance switched
+/-- Exclusion predicate of the generation-counter theorem (finding F89): the live instance switched
 to the evolving phase (`num_generations = 1`) although no evolved individual was ever proposed and the
 history does not show a complete initial population — which happens only when `_evolve` raised inside
 the `propose` that made the switch (a failed `propose` leaves no trace in the history). -/
-def F37State (sz : Option Nat) (l : Live) : Prop :=
+def F89State (sz : Option Nat) (l : Live) : Prop :=
   ∃ np nf si pop pend, l.st = .evolution np nf si true 1 pop pend ∧ NoNonInit l.hist ∧ doneInit sz l.hist = false
 
 /-- FULL statement: Evolution recovers counters, population AND generation counter. -/
@@ -413,12 +413,12 @@ def C15_recover_evolution_generations_Full (env : Env) : Prop :=
       ∧ recover env (.evolution init sz) (setup (.evolution init sz)) (runLive env (.evolution init sz) run).hist
           = .ok (.evolution np nf si' ini' g pop pend')
 
-/-- PARTIAL (repaired source; initial size ≥ 1 or none): for every run that does not end in the F37
+/-- PARTIAL (repaired source; initial size ≥ 1 or none): for every run that does not end in the F89
 state, the recovered instance has the counters, the population and the `num_generations` of the
 uninterrupted one. -/
 theorem C15_recover_evolution_generations_partial (env : Env) (hq : env.q = Quirks.patched) (init : Algo)
     (hb : IsBase init) (sz : Option Nat) (hsz : sz ≠ some 0) (run : List Event)
-    (hex : ¬ F37State sz (runLive env (.evolution init sz) run)) :
+    (hex : ¬ F89State sz (runLive env (.evolution init sz) run)) :
     ∃ np nf g pop si ini pend si' ini' pend',
       (runLive env (.evolution init sz) run).st = .evolution np nf si ini g pop pend
       ∧ recover env (.evolution init sz) (setup (.evolution init sz)) (runLive env (.evolution init sz) run).hist
@@ -475,13 +475,13 @@ theorem C15_recover_evolution_generations_partial (env : Env) (hq : env.q = Quir
         simp [hG, hdone, h1]
   rw [hgeq]
 
-/-- F37 (also on the repaired source): the sweeping initialiser is exhausted after 3 proposals, the
+/-- F89 (also on the repaired source): the sweeping initialiser is exhausted after 3 proposals, the
 4th `propose` switches to the evolving phase and then raises (empty population). -/
 def f37Env : Env :=
   { space := [0, 1, 2], draw := fun _ _ => 0, hash := fun _ d => d,
     repro := fun pop _ step => if pop.isEmpty then [] else [step % 3], update := fun p _ => p, q := .patched }
 
-theorem C15_F37_counterexample :
+theorem C15_F89_counterexample :
     popSummary (.ok (runLive f37Env (.evolution .sweeping none) [.propose, .propose, .propose, .propose]).st)
       = some (1, [])
     ∧ popSummary (recover f37Env (.evolution .sweeping none) (setup (.evolution .sweeping none))
@@ -492,8 +492,8 @@ theorem C15_recover_evolution_generations_Full_false : ¬ C15_recover_evolution_
   intro h
   obtain ⟨np, nf, g, pop, si, ini, pend, si', ini', pend', h1, h2⟩ :=
     h .sweeping (Or.inl rfl) none (by simp) [.propose, .propose, .propose, .propose]
-  have e1 := C15_F37_counterexample.1
-  have e2 := C15_F37_counterexample.2
+  have e1 := C15_F89_counterexample.1
+  have e2 := C15_F89_counterexample.2
   rw [h1] at e1
   rw [h2] at e2
   simp only [popSummary, Option.some.injEq, Prod.mk.injEq] at e1 e2
@@ -501,7 +501,7 @@ theorem C15_recover_evolution_generations_Full_false : ¬ C15_recover_evolution_
 
 /-- Non-vacuity: an ordinary run (two initial proposals, feedback, evolution, a child in flight) is
 not in the excluded state. -/
-example : ¬ F37State (some 1) (runLive (f35Env .patched) f35Algo f35Run) := by
+example : ¬ F89State (some 1) (runLive (f35Env .patched) f35Algo f35Run) := by
   rintro ⟨np, nf, si, pop, pend, h, _, _⟩
   have : popSummary (.ok (runLive (f35Env .patched) f35Algo f35Run).st) = some (1, pop.map fun it => (it.dna, it.reward)) := by
     rw [h]; rfl
